@@ -828,7 +828,8 @@ impl Engine for TcpUriEngine {
                 cfg.connect_timeout = if cfgsel & 8 != 0 { None } else { Some(std::time::Duration::from_millis(300)) };
                 cfg.happy_eyeballs_timeout = if cfgsel & 4 != 0 { None } else { Some(std::time::Duration::from_millis(300)) };
                 cfg.happy_eyeballs_concurrency = [None, Some(0), Some(1), Some(2)][(cfgsel & 3) as usize];
-                let resolver = crate::engines::addrsort::ListResolver(list);
+                // (a resolver whose readiness lives in the value that was polled, and which panics when called unready)
+                let resolver = crate::engines::addrsort::strict_resolver(list);
                 let fut = async {
                     match via {
                         0 => {
@@ -861,6 +862,10 @@ impl Engine for TcpUriEngine {
             if crate::panichook::in_library(loc) {
                 let file = loc.rsplit('/').next().unwrap_or(loc).split(':').next().unwrap_or("").to_string();
                 rep.violate(format!("C17/panic-in-{}/tcp-transport-uri-handling", file.trim_end_matches(".rs")), format!("{desc}: panic at {loc}: {msg}"));
+            } else if msg.contains(crate::engines::addrsort::OUT_OF_CONTRACT) {
+                // the panic is raised by the resolver, as `tower::limit` services do - because the library
+                // called a value it had not polled ready; the caller's request panics instead of returning
+                rep.violate("C17/collaborator-called-out-of-contract/resolver", format!("{desc}: {msg}"));
             }
         }
         if r.is_err() && rep.violations.is_empty() {
